@@ -116,7 +116,13 @@ class PolarsContainerValidate(Contract):
 
         for name in PARSERS:
             I.models[id(getattr(B, name))] = parser_model(name, self.parser_codes(name))
-        I.models[id(B.collect_column_info)] = lambda I, s, obj, schema: cur().ghost.setdefault("column_info", SAny(name="column_info"))
+        def column_info(I, s, obj, schema):
+            # ColumnInfo describes the columns of the frame it was computed from (absent / present / regex-expanded names)
+            ci = SAny(name=f"column_info#{len(cur().ghost.setdefault('column_infos', []))}")
+            cur().ghost["column_infos"].append((ci, obj))
+            return ci
+
+        I.models[id(B.collect_column_info)] = column_info
         I.models[id(B.collect_schema_components)] = lambda I, s, obj, schema, ci: cur().ghost.setdefault("components", (SAny(name="components"), obj, ci))[0]
 
         def subsample(I, self_obj, check_obj, head=None, tail=None, sample=None, random_state=None):
@@ -254,18 +260,34 @@ class PolarsContainerValidate(Contract):
         p = cur()
         cc = p.ghost.get("check_calls", [])
         out = {"core_checks_run_in_documented_order": [c[0] for c in cc] == CHECKS[: len(cc)]}
-        ci = p.ghost.get("column_info")
         comp = p.ghost.get("components")
+
+        def describes_parsed(ci):
+            """the ColumnInfo was computed from a frame with the columns of the parsed frame: from that frame itself or from an ancestor
+            that only column-preserving parsers (coerce_dtype, set_default) separate from it - add_missing_columns and
+            strict_filter_columns change the column set, so information gathered before them is stale"""
+            of = [o for c, o in p.ghost.get("column_infos", []) if c is ci]
+            if not of:
+                return False
+            f = parsed
+            while f is not of[0]:
+                if not isinstance(f, Lf) or f.how not in ("coerce_dtype", "set_default"):
+                    return False
+                f = f.parent
+            return True
+
         if sub is not None:
             out["subsample_options_forwarded"] = sub[1] == (kw["head"], kw["tail"], kw["sample"], kw["random_state"])
         for name, args in cc:
             if name == "check_column_presence":
-                out["presence_sees_the_whole_parsed_frame"] = args[0] is parsed and args[1] is schema and args[2] is ci
+                out["presence_sees_the_whole_parsed_frame"] = args[0] is parsed and args[1] is schema
+                out["presence_is_judged_on_the_columns_of_the_parsed_frame"] = describes_parsed(args[2])
             elif name == "check_column_values_are_unique":
                 out["joint_uniqueness_sees_the_subsample"] = sub is not None and args[0] is sub[2] and args[1] is schema
             elif name == "run_schema_component_checks":
                 out["components_see_the_subsample"] = sub is not None and args[0] is sub[2] and args[1] is schema and comp is not None and args[2] is comp[0] and args[3] is lazy
-                out["components_collected_from_the_parsed_frame"] = comp is not None and comp[1] is parsed and comp[2] is ci
+                out["components_collected_from_the_parsed_frame"] = comp is not None and comp[1] is parsed
+                out["components_are_chosen_by_the_columns_of_the_parsed_frame"] = comp is not None and describes_parsed(comp[2])
             elif name == "run_checks":
                 out["wide_checks_see_the_subsample"] = sub is not None and args[0] is sub[2] and args[1] is schema
         return out
